@@ -14,7 +14,8 @@ EXPLANATION = (
     "when it exceeds its capacity, hits are moved to the end, and cache entries are created only on the tracked read path (get_cached_view "
     "-> _write_to_cache), never on writes; (R5) the JSON store starts empty on an unreadable or invalid file and writes through "
     "unconditionally on every set and delete; (R6) lockset of the cache: which thread entries touch self.cache and under which common "
-    "lock. Not decided: dictionary conformance over operation histories; behaviour against a real Redis.")
+    "lock. Not decided: dictionary conformance over operation histories; behaviour against a real Redis."
+    ' (R10) no result of get()/get_cached_view() of asl_store / executions / execution_history is compared with None anywhere in the engine or the REST front ends (the Redis-backed store never returns None for an absent key; premise read from RedisDictStore.__getitem__).')
 RULE_TEXT = "obligation = one class x method, one key construction, one record creation, one cache access; non-trivial = distinct (rule, site)"
 
 
